@@ -13,6 +13,8 @@ structure ENode where
   value : Option Val
 
 def kEnumeration : Str := "Enumeration".toList
+def kEnumStrings : Str := "EnumStrings".toList
+def kEnumValues : Str := "EnumValues".toList
 def kUADataType : Str := "UADataType".toList
 def kUAVar : Str := "UAVariable".toList
 def kUnknown : Str := "Unknown".toList
@@ -116,14 +118,16 @@ def enumTypeIds (nodes : List ENode) (refs : List (Nat × Nat × Nat)) : Except 
       .ok (some ((refs.filter fun r => r.1 = e.id ∧ ids.contains r.2.1 ∧ ids.contains r.2.2).map (·.2.1)))
     | _ => .error .valueError
 
-/-- `create_enum_definition_table`: for a data type, the first HasProperty target that holds a value -/
+/-- `create_enum_definition_table`: for a data type, the first HasProperty target named EnumStrings or
+    EnumValues that holds a value (any other property of the data type is not its definition) -/
 def enumDef (nodes : List ENode) (refs : List (Nat × Nat × Nat)) (hasProperty : Nat) (dt : Nat) :
     Except PyErr (Option (Str × List (Int × Option Str))) :=
   match nodes.find? fun n => n.id = dt with
   | none => .ok none
   | some dtn =>
     let props := (refs.filter fun r => r.1 = dt ∧ r.2.2 = hasProperty).map (·.2.1)
-    let withVal := props.filterMap fun p => (nodes.find? fun n => n.id = p).bind (·.value)
+    let withVal := props.filterMap fun p => (nodes.find? fun n => n.id = p).bind
+      (fun n => if n.browse = kEnumStrings ∨ n.browse = kEnumValues then n.value else none)
     match withVal with
     | [] => .ok none
     | v :: _ =>
